@@ -147,9 +147,15 @@ theorem trackChild_me (k : Child) (s : HSt) :
 @[keepsConst] theorem trackChild_c (k) : Keeps (ConstI c) (trackChild k) := by
   constructor; intro s h
   rcases trackChild_me k s with h1 | h1 <;> (simp only [ConstI, h1]; simpa [ConstI, CoreConst, XSa.setKids] using h)
+theorem untrackChild_me (k : Child) (s : HSt) :
+    (untrackChild k s).2.me = s.me ∨ (untrackChild k s).2.me = s.me.setKids (removeKid s.me.ext.kids k) := by
+  unfold untrackChild
+  split
+  · exact Or.inr rfl
+  · exact Or.inl rfl
 @[keepsConst] theorem untrackChild_c (k) : Keeps (ConstI c) (untrackChild k) := by
-  constructor; intro s h; unfold untrackChild
-  simpa [ConstI, CoreConst, XSa.setKids] using h
+  constructor; intro s h
+  rcases untrackChild_me k s with h1 | h1 <;> (simp only [ConstI, h1]; simpa [ConstI, CoreConst, XSa.setKids] using h)
 @[keepsConst] theorem getSlot_c (sl) : Keeps (ConstI c) (getSlot sl) := by
   cases sl
   · simp only [getSlot]; keeps_c
@@ -243,6 +249,8 @@ macro "keeps_c2" : tactic => `(tactic| repeat' (first
     all_goals exact ih _
 @[keepsConst] theorem processInformationalRequest_c (m) : Keeps (ConstI c) (processInformationalRequest m) := by
   unfold processInformationalRequest; keeps_c2
+@[keepsConst] theorem ikeRekeyRequest_c (now m p) : Keeps (ConstI c) (ikeRekeyRequest now m p) := by
+  unfold ikeRekeyRequest; keeps_c2
 @[keepsConst] theorem processCreateChildSaRequest_c (now m) : Keeps (ConstI c) (processCreateChildSaRequest now m) := by
   unfold processCreateChildSaRequest; keeps_c2
 @[keepsConst] theorem handleInvalidKe_c (d) : Keeps (ConstI c) (handleInvalidKe d) := by
@@ -259,6 +267,10 @@ macro "keeps_c2" : tactic => `(tactic| repeat' (first
   unfold childNegotiationRes; keeps_c2
 @[keepsConst] theorem processIkeAuthResponse_c (m) : Keeps (ConstI c) (processIkeAuthResponse m) := by
   unfold processIkeAuthResponse; keeps_c2
+@[keepsConst] theorem ikeRekeyResponse_c (now m x) : Keeps (ConstI c) (ikeRekeyResponse now m x) := by
+  unfold ikeRekeyResponse; keeps_c2
+@[keepsConst] theorem childSaResponse_c (prev m) : Keeps (ConstI c) (childSaResponse prev m) := by
+  unfold childSaResponse; keeps_c2
 @[keepsConst] theorem processCreateChildSaResponse_c (now m) : Keeps (ConstI c) (processCreateChildSaResponse now m) := by
   unfold processCreateChildSaResponse; keeps_c2
 @[keepsConst] theorem processInformationalResponse_c (m) : Keeps (ConstI c) (processInformationalResponse m) := by
